@@ -309,7 +309,7 @@ E2EJoin(vs) ==
 \* quick tier: two forgeries only where the handshake can get past make_join without them
 E2EJoinR(vs) == {[s EXCEPT !.retry = (s.inRoom /\ s.mem = "none" /\ s.jr \in {"public", "restricted"}
                                         /\ s.allow \in {<<>>, <<"listed">>}),
-                           !.fb = IF ScenarioSet = "e2e_quick" /\ ~(s.inRoom /\ s.mem # "ban") THEN 1 ELSE 9] : s \in E2EJoin(vs)}
+                           !.fb = IF ScenarioSet \in {"e2e_quick", "e2e_three"} /\ ~(s.inRoom /\ s.mem # "ban") THEN 1 ELSE 9] : s \in E2EJoin(vs)}
 \* the three-forgery configuration: one room version, no retries (the two-forgery configurations have them)
 E2EJoin3(vs) == {[s EXCEPT !.retry = FALSE] : s \in E2EJoinR(vs)}
 E2ELeave(vs)  == {[Base(v) EXCEPT !.mem = mem, !.inRoom = ir] : v \in vs, mem \in {"join", "ban"}, ir \in BOOLEAN}
